@@ -399,7 +399,23 @@ def run(ch, idx, tier):
         spec = specs[ch.choose("cdata.spec", len(specs))]
         pk = ch.choose("cdata.pops", 3)
         pp = "all" if pk == 0 else (pops[ch.choose("cdata.pop", len(pops))] if pk == 1 else ch.shuffle("cdata.poplist", pops)[: 1 + ch.choose("cdata.npops", len(pops))])
-        year = None if ch.flip("cdata.allyears", 0.5) else [float(P.data.tvec[0]), float(P.data.tvec[-1])]
+        yk = ch.choose("cdata.years", 4)
+        if yk == 0:
+            year = None
+        elif yk == 1:
+            year = [float(P.data.tvec[0]), float(P.data.tvec[-1])]
+        elif yk == 2:
+            year = float(P.data.tvec[ch.choose("cdata.year_idx", len(P.data.tvec))])
+        else:
+            # several years in any order, preferring years that hold entries (each reported value belongs to ITS year)
+            try:
+                _, cd_, _ = sanitize_cascade(fw, spec)
+                have = sorted({float(t_) for inc_ in cd_.values() for code_ in ([inc_] if isinstance(inc_, str) else inc_) for pop_ in pops for ts_ in [P.data.get_ts(code_, pop_)] if ts_ is not None for t_ in ts_.t})
+            except Exception:
+                have = []
+            cand = have + [float(y_) for y_ in P.data.tvec if float(y_) not in have][:2]
+            ys = ch.shuffle("cdata.year_order", cand)
+            year = ys[: 2 + ch.choose("cdata.nyears", max(1, min(4, len(ys) - 1)))] if len(ys) >= 2 else None
         # sparse data: some populations lack entries for some constituents / years (databooks are rarely complete)
         import sciris as _sc
 
